@@ -614,7 +614,8 @@ def specFormProp (fields : List (Str × List Str)) (name : Str) (p : RS) (e : Op
        | none => none
        | some raw => (encodesAll ((itemTy p).getD .string) raw).map fun l => some (.arr l))
     | some .object => none
-    | some t => (encodesPrim t v0).map some
+    | some t => if v0 = [] then some none else (encodesPrim t v0).map some
+      -- an empty text is "no value": the library's documented convention (`parsePrimitive` returns nil for "")
 
 def specFormProps (fields : List (Str × List Str)) (encs : List (Str × Enc)) : List (Str × RS) → Option (List (Str × V))
   | [] => some []
